@@ -1,7 +1,7 @@
 // U-sched: the scheduler core under contract (C01-C06, C08, C15, C16, C19 function-level parts).
 //@@ unit U-sched
 //@@ default props=C02 rewrites=R1,R2,R3,R5,R13 ghost="Tracked(h): Tracked<&mut Heap>" ghostarg="Tracked(h)" loopinv="h.wf(), fwd(*old(h), *h)," bodyprelude="broadcast use {lemma_fwd_refl, lemma_fwd_trans, axiom_flag_as_bool};" attr="#[verifier::exec_allows_no_decreases_clause] #[verifier::loop_isolation(false)]"
-//@@ heapmethods task_by_nid state set_state set_err err children children_in next parent siblings task set_task sched_task emit_task_event emit_proc_event eval init run review error exec is_ready emit_task emit_error create_task push root set_data flag set_flag prev start_time update_data outputs is_event_processed prepare is_auto_complete abort_task back_task undo_task redo_task action set_action get_var get_var_or_default dispatch_act backs backs_step create_context set_message_with update arm_cancel do_action dispatch time_millis hooks_snapshot flag_or_false run_hooks_by run_hooks find run_hooks_timeout add_hook_stmts add_hook_catch add_hook_timeout params build_acts dispatch_acts set_emit_disabled set_auto_complete execute tasks_with_timeout_hooks do_tick is_emit_disabled create_message emit_message upsert
+//@@ heapmethods task_by_nid state set_state set_err err children children_in next parent siblings task set_task sched_task emit_task_event emit_proc_event eval init run review error exec is_ready emit_task emit_error create_task push root set_data flag set_flag prev start_time update_data outputs is_event_processed prepare is_auto_complete abort_task back_task undo_task redo_task action set_action get_var get_var_or_default dispatch_act backs backs_step create_context set_message_with update arm_cancel do_action dispatch time_millis hooks_snapshot flag_or_false run_hooks_by run_hooks find run_hooks_timeout add_hook_stmts add_hook_catch add_hook_timeout params build_acts dispatch_acts set_emit_disabled set_auto_complete execute tasks_with_timeout_hooks do_tick is_emit_disabled create_message emit_message upsert follows_step_acts arm_cancel
 use vstd::prelude::*;
 use std::sync::Arc;
 verus! {
@@ -348,12 +348,34 @@ pub open spec fn final_witness(a: Heap, b: Heap, n: Tid, act: Act, hook: bool) -
     !a.has(n) && b.has(n) && b.tasks.dom() =~= a.tasks.dom().insert(n) && b.queue == a.queue.push(n) && b.tasks[n].prev == Some(a.cur) && b.tasks[n].state is None
         && b.tasks[n].node.content == NodeContent::Act(act) && (hook ==> flag_is(b.tasks[n], consts::IS_EVENT_PROCESSED@, false))
 }
-// R8: the Cancel arm of Task::update (closure over the heap inside `follows`) is a declared hole
-#[verifier::external_body]
-pub fn arm_cancel(task: &Arc<Task>, ctx: &Context, Tracked(h): Tracked<&mut Heap>) -> (r: Result<()>)
+// The Cancel arm of Task::update, lifted into a function of its own (R9b, `fallsthrough`: the arms of that match fall through to the common tail of
+// Task::update); Task::update calls it where the arm stood (R8).
+//@@ extract file=acts/src/scheduler/process/task.rs in="impl Task" item="fn update" arm="EventAction::Cancel" fallsthrough name=Task::update::cancel props=C02,C05 sig="pub fn arm_cancel(task0: &Arc<Task>, ctx: &Context) -> Result<()>"
+//@@ opt attr="#[verifier::exec_allows_no_decreases_clause]"
+//@@ rw R7 `task . follows ( & | t | t . is_kind ( NodeKind :: Step ) && t . is_acts ( ) , & mut path_tasks , )` => `task.follows_step_acts(&mut path_tasks)`
+//@@ spec
     requires old(h).wf()
-    ensures final(h).wf(), fwd(*old(h), *final(h)),
-{ unimplemented!() }
+    ensures
+        //# C-cancel-fwd
+        final(h).wf() && fwd(*old(h), *final(h)),
+        //# C-cancel-needs-an-enclosing-step-that-ended-in-success-with-a-following-step-to-cancel
+        parent_tid(old(h).cur) is None ==> ret is Err && *final(h) == *old(h),
+//@@ loop 1
+    invariant
+        //# step-candidate-ok
+        (step is Some ==> wf_task(*h, *step->Some_0)) && (parent_tid(old(h).cur) is None ==> step is None) && *h == *old(h),
+    ensures
+        //# found-a-step-or-nothing
+        (step is Some ==> wf_task(*h, *step->Some_0) && step->Some_0.node.s_kind() == NodeKind::Step) && (parent_tid(old(h).cur) is None ==> step is None) && *h == *old(h),
+//@@ loop 2
+    invariant
+        //# path-ok
+        tasks_ok(*h, __v2@) && tasks_ok(*h, nexts@) && wf_task(*h, *task) && task.node.s_kind() == NodeKind::Step && parent_tid(old(h).cur) is Some,
+//@@ loop 3
+    invariant
+        //# nexts-ok
+        tasks_ok(*h, __v3@) && wf_task(*h, *task) && task.node.s_kind() == NodeKind::Step && parent_tid(old(h).cur) is Some,
+//@@ end
 pub open spec fn guarded_event(e: EventAction) -> bool {
     e is Next || e is Submit || e is Back || e is Abort || e is Skip || e is Error || e is Remove || e is SetProcessVars
 }
